@@ -14,8 +14,11 @@ struct EvalResult
 };
 inline bool sameResult(const EvalResult &a, const EvalResult &b, bool withSpline = true)
 {
-    if (!bitEqual(a.cost, b.cost) || !bitEqualMat(a.grad, b.grad))
+    if (!bitEqualOrBothNaN(a.cost, b.cost) || a.grad.size() != b.grad.size())
         return false;
+    for (int i = 0; i < a.grad.size(); ++i)
+        if (!bitEqualOrBothNaN(a.grad(i), b.grad(i)))
+            return false;
     if (withSpline && (!bitEqualMat(a.coeffs, b.coeffs) || !bitEqualVec(a.T, b.T)))
         return false;
     return true;
@@ -215,6 +218,16 @@ inline void runC12sched(Ctx &c)
             if (!c.require("C12.reference_state_accepted", initRig(rig, oc), okey(oc, "setup")))
                 continue;
             x = genDecisionVector(r, oc, rig);
+            if (cl.N >= 2 && r.coin(0.25))
+            {
+                // a hard keep-out barrier (+inf) that is hit in some, not all, segments: whatever the result is under serial
+                // execution, it must be the same under every schedule
+                int wi = r.range(1, cl.N - 1);
+                oc.prog.bar_r2 = 2.25;
+                for (int j = 0; j < cl.dim; ++j)
+                    oc.prog.bar_c[j] = oc.ref.P(wi, j);
+                c.event("program.hard_barrier");
+            }
             c.nontrivial(hashOptCase(oc, &x));
             if (idx < 1)
                 c.wantSample();
@@ -476,8 +489,12 @@ inline void runC15(Ctx &c)
                         int b = r.range(0, (int)live.size() - 1);
                         if (b == a)
                         {
+                            auto before = live[a].opt->optimalSpline();
                             live[a].opt->selfAssign();
                             trace.push_back("self_assign obj" + std::to_string(a));
+                            auto after = live[a].opt->optimalSpline();
+                            bool ok = (!before && !after) || (before && after && bitEqualMat(before->coeffs(), after->coeffs()));
+                            c.require("C15.self_assignment_keeps_workspace", ok, okey(live[a].cfg, "self_assignment"));
                         }
                         else
                         {
@@ -752,6 +769,9 @@ inline void runC16opt(Ctx &c)
             auto apply = [&](ValidityInput in, const std::string &what)
             {
                 last = what;
+                // which quantities are optimised has no bearing on validity
+                if (r.coin(0.6))
+                    opt->setFlags(OptFlags::fromByte(r.coin(0.3) ? 255 : r.range(0, 255)));
                 c16Apply(c, *opt, order, dim, in, what, combo);
                 hh = mix64(hh, hashStr(what.c_str()));
                 // after every rejection a valid state must be accepted again (verdict tracks the latest call)
@@ -953,7 +973,7 @@ inline void runC19(Ctx &c)
                 c.wantSample();
             const bool three = r.coin(0.6);
             const bool defaults = r.coin(0.5);
-            const double eps = defaults ? 1e-6 : r.pick(std::vector<double>{1e-5, 1e-6, 3e-7});
+            const double eps = defaults ? 1e-6 : r.pick(std::vector<double>{1e-3, 1e-4, 1e-5, 1e-6, 3e-7});
             const double tol = defaults ? 1e-4 : r.pick(std::vector<double>{1e-3, 1e-4, 1e-5});
             const int wsH = r.coin(0.5) ? -1 : rig.env->newWorkspace();
             if (r.coin(0.5))
@@ -978,9 +998,40 @@ inline void runC19(Ctx &c)
                 c.event("self_check_after_unqueried_reconfiguration");
             }
             // three variants: correct functors, then one perturbed gradient component
-            for (int variant = 0; variant < 2; ++variant)
+            for (int variant = 0; variant < 3; ++variant)
             {
                 CostProgram prog = oc.prog;
+                if (variant == 2)
+                {
+                    // a functor whose gradient contains a NaN while its value is finite (0/0 at rest): the self-check must not
+                    // report success, and must still restore the workspace
+                    if (!r.coin(0.5))
+                        continue;
+                    static const int kinds[] = {PERT_TIME_GRAD, PERT_GP, PERT_GV, PERT_WP_GRAD};
+                    prog.pert = kinds[r.range(0, three ? 3 : 2)];
+                    prog.pert_index = r.range(0, prog.pert == PERT_WP_GRAD ? cl.N : cl.N - 1);
+                    prog.pert_coord = r.range(0, cl.dim - 1);
+                    prog.pert_delta = std::nan("");
+                    pertDesc = prog.describe();
+                    // only meaningful when the NaN reaches the decision-space gradient
+                    VectorXd gN;
+                    OptCase ocn = oc;
+                    ocn.prog = prog;
+                    (void)evalFresh(ocn, x, three, &gN);
+                    if (allFinite(gN))
+                    {
+                        c.event("nan_perturbation.without_effect");
+                        continue;
+                    }
+                    CheckResult rn = rig.opt->checkGradients(x, prog, three, wsH, defaults, eps, tol);
+                    std::string keyn = okey(oc, "self_check_nan");
+                    c.require("C19.nan_gradient_is_not_reported_as_success", !rn.valid, keyn, "error_norm=" + jnum(rn.error_norm));
+                    auto sN = wsH < 0 ? rig.opt->optimalSpline() : rig.env->wsSpline(wsH);
+                    EvalResult freshN = evalFreshFull(ocn, x, three);
+                    c.require("C19.workspace_spline_restored_to_checked_vector", sN && bitEqualMat(sN->coeffs(), freshN.coeffs), keyn);
+                    c.event("checks.nan_gradient");
+                    continue;
+                }
                 if (variant == 1)
                 {
                     int kind = r.range(0, three ? 7 : 6);
